@@ -1,11 +1,14 @@
 pub mod c01;
 pub mod c02;
+pub mod c05;
 pub mod c09;
 pub mod c10;
 pub mod c11;
 pub mod c12;
 pub mod c14;
+pub mod c16;
 pub mod c17;
+pub mod c20;
 
 use crate::report::Report;
 use crate::Params;
@@ -14,12 +17,15 @@ pub fn run(p: &Params) -> Report {
     match p.property.as_str() {
         "C01" => c01::run(p),
         "C02" => c02::run(p),
+        "C05" => c05::run(p),
         "C09" => c09::run(p),
         "C10" => c10::run(p),
         "C11" => c11::run(p),
         "C12" => c12::run(p),
         "C14" => c14::run(p),
+        "C16" => c16::run(p),
         "C17" => c17::run(p),
+        "C20" => c20::run(p),
         other => {
             let mut r = Report::new(other);
             r.note("no such monitor");
